@@ -406,13 +406,10 @@ def makefile_rules():
     return rules
 
 
-def run_c19(prop, cfg, tier, seed):
-    t0 = time.time()
-    core.ensure_built()
-    audit = core.lean_audit(cfg["module"])
-    lean_ok = audit["ok"]
-    nq = 3000 if tier == "quick" else 40000
-    k = 12 if tier == "quick" else 40
+def prepare_vs_model(prop, seed, nq, k):
+    """builder.PrepareGrammar itself (the real entry point, Go's map order, its own visiting order), k times per grammar in one
+    process, against the Lean model of the analysis with the SORTED visiting order: -> (viol, disagree, number of grammars).
+    viol = several outcomes for one grammar; disagree = the one outcome is not the model's (marks, leader, verdict)."""
     cases = corpus_mid(prop) + gen_mid(seed, nq)
     # one case per grammar (first order only)
     seen, gl = set(), []
@@ -455,6 +452,18 @@ def run_c19(prop, cfg, tier, seed):
             mo = norm_noleader("midres 0 " + mo)[len("midres 0 "):]
         if not mo.startswith(outcome):
             disagree.append((cl, dl, ml))
+    return viol, disagree, len(gl)
+
+
+def run_c19(prop, cfg, tier, seed):
+    t0 = time.time()
+    core.ensure_built()
+    audit = core.lean_audit(cfg["module"])
+    lean_ok = audit["ok"]
+    nq = 3000 if tier == "quick" else 40000
+    k = 12 if tier == "quick" else 40
+    viol, disagree, ngl = prepare_vs_model(prop, seed, nq, k)
+    gl = [None] * ngl
     # tool level: the real binary, fresh processes
     tool_runs, tool_viol = 0, []
     rules = makefile_rules()
@@ -636,7 +645,7 @@ def run_c19(prop, cfg, tier, seed):
            "grammars": len(gl), "in_process_builds": len(gl) * k, "tool_runs": tool_runs,
            "history_independence": {"grammars": rh.get("evaluations"), "builds": (rh.get("stats") or {}).get("builds"), "failures": rh.get("failure_count")},
            "optimizer_determinism": {"grammars": ro.get("evaluations"), "nondeterministic": len(opt_nd), "pipeline_grammars": len(files), "flag_sets": flagsets},
-           "samples": [{"case": gl[0], "det": det[0][:300]}] if gl else [],
+           "samples": [{"grammars": len(gl), "in_process_builds_each": k}],
            "explanation": "determinism is decided by repeated execution under Go's randomised map order plus a kernel-checked proof that the (repaired) analysis visits rules in an order that does not depend on the map order"}
     core.write_evidence(prop, tier, seed, cfg.get("level", "proof"), cov,
                         ["byte-identity of the emitted file beyond the analysis (emission order = grammar order) is checked by execution only"], wall, nviol)
